@@ -100,6 +100,25 @@ install_markers()
 # building widgets from a script
 
 
+class SelectableImage(UrwidImage):
+    """an application-defined subclass (`UrwidImage (or a subclass of it)` is explicitly supported)"""
+
+    _selectable = True
+    ignore_focus = False
+
+    def keypress(self, size, key):
+        return key
+
+
+class CaptionedImage(UrwidImage):
+    """a second application-defined subclass"""
+
+    caption = "caption"
+
+
+WIDGET_CLASSES = [UrwidImage, SelectableImage, CaptionedImage]
+
+
 def reset_class_state(next_z=1, free=()):
     # every widget of an earlier case must be dead *before* the allocator is reset: a late `__del__`
     # would put its z-index into the new free set
@@ -109,6 +128,10 @@ def reset_class_state(next_z=1, free=()):
     UrwidImage._ti_free_z_indexes.clear()
     UrwidImage._ti_free_z_indexes.update(free)
     UrwidImage._ti_next_z_index = next_z
+    for sub in WIDGET_CLASSES[1:]:  # allocator state is the base class' alone; nothing may linger on a subclass
+        for name in ("_ti_next_z_index", "_ti_free_z_indexes"):
+            if name in sub.__dict__:
+                delattr(sub, name)
     UrwidImageCanvas._ti_disguise_state = 0
 
 
@@ -116,7 +139,8 @@ def make_image_widget(spec):
     cls = STYLES[spec["style"]]
     col = tuple(spec.get("color", (200, 30, 30)))
     img = Image.new("RGB", (spec["iw"], spec["ih"]), col)
-    return UrwidImage(cls(img), spec.get("fmt", ""), upscale=spec.get("upscale", False))
+    wcls = WIDGET_CLASSES[spec.get("cls", 0)]
+    return wcls(cls(img), spec.get("fmt", ""), upscale=spec.get("upscale", False))
 
 
 def build(node, ws):
